@@ -111,15 +111,15 @@ func zzH_C18_envelope_ban(t *zzT) {
 	// classification by the real decoder on a copy
 	cp := append([]byte(nil), buf...)
 	var decErr error
-	proc := ""
+	proc, msgID := "", ""
 	if isResponse {
 		m := &responseMsg{}
 		decErr = m.Decode(cp)
-		proc = m.Procedure
+		proc, msgID = m.Procedure, m.ID
 	} else {
 		m := &Request{}
 		decErr = m.Decode(cp)
-		proc = m.Procedure
+		proc, msgID = m.Procedure, m.ID
 	}
 	wellFormed := decErr == nil && proc == "k"
 
@@ -137,7 +137,11 @@ func zzH_C18_envelope_ban(t *zzT) {
 		t.Assert(len(p.connGater.peerScore) == 0 && zzGatesAgree(t, p.connGater, bare), "well-formed known procedure ⇒ no penalty")
 		t.Assert(len(nw.closed) == 0, "well-formed known procedure ⇒ no disconnect")
 		if isResponse {
-			t.Assert(len(resCh) == 1 && handled == 0, "response delivered to the waiting request")
+			pending := 0
+			if msgID == "id" { // only a response whose ID matches a pending request is delivered
+				pending = 1
+			}
+			t.Assert(len(resCh) == pending && handled == 0, "response delivered to the waiting request ⇔ its ID matches")
 		} else {
 			t.Assert(handled == 1 && len(h.streams) == 1 && h.streams[0].written == 1 && h.streams[0].closed == 1,
 				"request handled once and answered on a new stream")
